@@ -95,7 +95,7 @@ type Obs struct {
 	Ret       Cls    `json:"ret"`                 // what the call returned (child: what Transaction returned / panicked with)
 	N         int64  `json:"n,omitempty"`         // read: the count seen
 	Entered   bool   `json:"entered,omitempty"`   // child: the block function was called
-	Cancelled bool   `json:"cancelled,omitempty"` // child with its own context: that context was cancelled inside it
+	Cancelled bool   `json:"cancelled,omitempty"` // child: the context the call ran under (its own, or the one of an enclosing block) was cancelled by the time the call ended
 	NN        bool   `json:"nn,omitempty"`        // child: the call's receiver had nested transactions switched off (copied from the input)
 	Exit      Cls    `json:"exit"`                // child: how the block function ended
 	Body      []Obs  `json:"body,omitempty"`
@@ -421,6 +421,11 @@ func (r *runner) body(h *gorm.DB, b *Blk, log *[]Obs) error {
 					defer func() { r.cancels = r.cancels[:len(r.cancels)-1]; cancel() }()
 					recv = recv.WithContext(ctx)
 				}
+				defer func() { // the context the call ran under (its own or an enclosing block's) is cancelled when the call ends
+					if ctx := recv.Statement.Context; ctx != nil && ctx.Err() != nil {
+						o.Cancelled = true
+					}
+				}()
 				err = recv.Transaction(func(tx *gorm.DB) error { return r.fc(tx, it.B, &o) })
 				returned = true
 				return
@@ -948,8 +953,8 @@ func shape(in Input, o Observed) string {
 const sigStock = "sqlite-dialector-drops-savepoint-error"
 const sigCancel = "nested-rollback-under-cancelled-context"
 
-// cancelledFailing: some nested block that runs under its own context had that context cancelled
-// inside it and then failed (error or panic).
+// cancelledFailing: some nested block failed (error or panic) while the context it ran under - its
+// own or the one of an enclosing block - was already cancelled.
 func cancelledFailing(log []Obs) bool {
 	for _, o := range log {
 		if o.K != "child" || o.NN { // with nested transactions switched off nothing below is to be undone by a block itself
